@@ -6,7 +6,7 @@
 //! A second sub-workload drives the undo-frame API of `Facts` directly (C10, second sentence).
 
 use crate::core::rng::Rng;
-use crate::core::{budget, drop_chunks, hashseed, panic_text, Obs, Tier, Violation, World, WorldInfo};
+use crate::core::{budget, clock, drop_chunks, hashseed, panic_text, Obs, Tier, Violation, World, WorldInfo};
 use rust_rule_engine::backward::backward_engine::{BackwardConfig, BackwardEngine};
 use rust_rule_engine::backward::search::SearchStrategy;
 use rust_rule_engine::engine::facts::Facts;
@@ -91,7 +91,15 @@ pub struct BRule {
     /// before the query). C10 and C11 only, as for `retracts`
     #[serde(default)]
     pub appends: bool,
+    /// the rule carries `date_effective` = the start of the run + this many seconds (C11 only, with a simulated
+    /// wall clock that the caller moves between queries). The pinned backward search does not look at dates —
+    /// nothing may change; a search that does look must not serve a verdict memoised at another instant
+    #[serde(default)]
+    pub effective_in: Option<u8>,
 }
+
+/// start of the simulated wall clock in runs with dated rules
+const BWD_CLOCK_BASE_MS: u64 = 1_700_000_000_000;
 
 #[derive(Clone, Debug, Serialize, Deserialize, PartialEq)]
 pub enum BOp {
@@ -122,6 +130,8 @@ pub enum BOp {
     /// the owner of the long-lived engine disables / re-enables a rule in its knowledge base and rebuilds the
     /// conclusion index; from then on 'the rule set' is the set of enabled rules
     ToggleRule(u8),
+    /// the wall clock moves on by this many seconds (runs with dated rules)
+    AdvanceClock(u8),
     /// the CALLER uses the undo-frame API on its own facts around its queries ("what if"): 0 begin, 1 roll back,
     /// 2 commit (no-ops when no caller frame is open). C11 only: a rolled-back write is a change of the caller's
     /// facts like any other, and the next answer must be a fresh engine's answer on the facts as they now stand
@@ -358,6 +368,12 @@ fn build_kb(types: &[Ty], rules: &[BRule]) -> KnowledgeBase {
         }
         let mut rule = Rule::new(format!("R{i}"), cond_group(types, &r.cond), actions);
         rule.no_loop = r.no_loop;
+        if let Some(k) = r.effective_in {
+            use chrono::TimeZone;
+            if let Some(t) = chrono::Utc.timestamp_millis_opt((BWD_CLOCK_BASE_MS + k as u64 * 1000) as i64).single() {
+                rule = rule.with_date_effective(t);
+            }
+        }
         let _ = kb.add_rule(rule);
     }
     kb
@@ -857,6 +873,13 @@ fn run_search(
     }
     let mut asked: BTreeSet<String> = BTreeSet::new();
     let mut caller_frames = 0usize;
+    // runs with dated rules have a simulated wall clock (nothing in the pinned backward search reads a clock; a
+    // search that does, through a plain Utc::now(), sees this one — seam S1d)
+    let dated = prop == "C11" && !attach_rete && rules.iter().any(|r| r.effective_in.is_some());
+    if dated {
+        clock::install(BWD_CLOCK_BASE_MS);
+        obs.count("probe.program_with_a_dated_rule");
+    }
     for (step, op) in ops.iter().enumerate() {
         let site = site_of(strategy);
         let active_rules: Vec<BRule> = rules.iter().zip(&enabled).filter(|(_, e)| **e).map(|(r, _)| r.clone()).collect();
@@ -926,6 +949,12 @@ fn run_search(
             BOp::SetFact(f, l) => {
                 facts.set(&fkey(*f), lit_value(types[*f as usize % NF], *l));
                 obs.count("probe.caller_changed_a_fact");
+            }
+            BOp::AdvanceClock(secs) => {
+                if dated {
+                    clock::advance_ms(*secs as u64 * 1000);
+                    obs.count("probe.wall_clock_moved_between_queries");
+                }
             }
             BOp::CallerFrame(k) => {
                 if prop == "C11" || prop == "C10" {
@@ -1055,9 +1084,13 @@ fn run_search(
                     let (types2, rules2, enabled2, before2, gt2, cfg2) = (types.to_vec(), rules.to_vec(), enabled.clone(), before.clone(), gt.clone(), mkcfg(max_depth, strategy, max_solutions, memo));
                     let objects2 = OBJECTS.with(|o| o.get());
                     let empty2 = EMPTY.with(|e| e.get());
+                    let now2 = if dated { Some(clock::now_ms()) } else { None };
                     let r = hashseed::on_seeded_thread(*hs, move || {
                         OBJECTS.with(|o| o.set(objects2));
                         EMPTY.with(|e| e.set(empty2));
+                        if let Some(ms) = now2 {
+                            clock::install(ms);
+                        }
                         let mut e3 = BackwardEngine::with_config(build_kb_with(&types2, &rules2, &enabled2), cfg2);
                         let mut f3 = facts_from(&before2);
                         let rete3: Option<Arc<Mutex<IncrementalEngine>>> = if attach_rete { Some(Arc::new(Mutex::new(IncrementalEngine::new()))) } else { None };
@@ -1340,7 +1373,7 @@ fn gen_search(rng: &mut Rng, hash_seed: u64, c11_ops: bool, with_negation: bool)
         } else {
             vec![]
         };
-        rules.push(BRule { cond, sets, fails, copies, no_loop: rng.chance(1, 4), retracts, appends: with_negation && rng.chance(1, 10) });
+        rules.push(BRule { cond, sets, fails, copies, no_loop: rng.chance(1, 4), retracts, appends: with_negation && rng.chance(1, 10), effective_in: None });
     }
     // state-machine programs (a quarter of the non-Horn ones): field 0 is a state that rules move from
     // value to value (`F.f0 == a -> F.f0 = b`), field 1 an output concluded from a state
@@ -1356,12 +1389,12 @@ fn gen_search(rng: &mut Rng, hash_seed: u64, c11_ops: bool, with_negation: bool)
             let b = (a + 1 + rng.below(nvals as u64 - 1) as u8) % nvals;
             // (on a text field every other transition tests the state with a string operator)
             let op = if types[0] == Ty::Text && rng.chance(1, 2) { 2 + rng.below(4) as u8 } else { 0 };
-            m.push(BRule { cond: BCond::Atom(BAtom { field: 0, op, lit: a }), sets: vec![(0, b)], fails: false, copies: vec![], no_loop: false, retracts: vec![], appends: false });
+            m.push(BRule { cond: BCond::Atom(BAtom { field: 0, op, lit: a }), sets: vec![(0, b)], fails: false, copies: vec![], no_loop: false, retracts: vec![], appends: false, effective_in: None });
         }
         let v = rng.below(3) as u8;
         for _ in 0..1 + rng.usize(2) {
             let op = if types[0] == Ty::Text && rng.chance(1, 2) { 2 + rng.below(4) as u8 } else { 0 };
-            m.push(BRule { cond: BCond::Atom(BAtom { field: 0, op, lit: rng.below(nvals as u64) as u8 }), sets: vec![(1, v)], fails: false, copies: vec![], no_loop: false, retracts: vec![], appends: false });
+            m.push(BRule { cond: BCond::Atom(BAtom { field: 0, op, lit: rng.below(nvals as u64) as u8 }), sets: vec![(1, v)], fails: false, copies: vec![], no_loop: false, retracts: vec![], appends: false, effective_in: None });
         }
         m.extend(rules.iter().take(rng.usize(3)).cloned());
         rng.shuffle(&mut m);
@@ -1464,6 +1497,16 @@ fn gen_search(rng: &mut Rng, hash_seed: u64, c11_ops: bool, with_negation: bool)
         ops.push(BOp::Query(g));
     }
     ops.push(BOp::Query(rng.below(3) as u8));
+    // C11, one program in eight (without an attached RETE engine) has a dated rule — effective one second into the
+    // run — and a history that ends: ask, the clock moves on two seconds, ask the same again
+    if c11_ops && !attach_rete && rng.chance(1, 8) {
+        let k = rng.usize(rules.len());
+        rules[k].effective_in = Some(1);
+        let g = rng.below(3) as u8;
+        ops.push(BOp::Query(g));
+        ops.push(BOp::AdvanceClock(2));
+        ops.push(BOp::Query(g));
+    }
     // C11, one history in 400 is LONG: the caller re-asserts an unrelated fact with a new value 70-90 times —
     // every one a fact state the engine has not seen — asking the same query each time, then writes a premise
     // and asks again (a memo table, an id space or a cache that only behaves differently after dozens of states)
@@ -1674,28 +1717,28 @@ impl World for BwdWorld {
                     let mut alts: Vec<BRule> = Vec::new();
                     match &r.cond {
                         BCond::And(a, b) | BCond::Or(a, b) => {
-                            alts.push(BRule { cond: (**a).clone(), sets: r.sets.clone(), fails: r.fails, copies: r.copies.clone(), no_loop: r.no_loop, retracts: r.retracts.clone(), appends: r.appends });
-                            alts.push(BRule { cond: (**b).clone(), sets: r.sets.clone(), fails: r.fails, copies: r.copies.clone(), no_loop: r.no_loop, retracts: r.retracts.clone(), appends: r.appends });
+                            alts.push(BRule { cond: (**a).clone(), sets: r.sets.clone(), fails: r.fails, copies: r.copies.clone(), no_loop: r.no_loop, retracts: r.retracts.clone(), appends: r.appends, effective_in: None });
+                            alts.push(BRule { cond: (**b).clone(), sets: r.sets.clone(), fails: r.fails, copies: r.copies.clone(), no_loop: r.no_loop, retracts: r.retracts.clone(), appends: r.appends, effective_in: None });
                         }
                         _ => {}
                     }
                     if r.fails {
-                        alts.push(BRule { cond: r.cond.clone(), sets: r.sets.clone(), fails: false, copies: r.copies.clone(), no_loop: r.no_loop, retracts: r.retracts.clone(), appends: r.appends });
+                        alts.push(BRule { cond: r.cond.clone(), sets: r.sets.clone(), fails: false, copies: r.copies.clone(), no_loop: r.no_loop, retracts: r.retracts.clone(), appends: r.appends, effective_in: None });
                         if r.appends {
-                            alts.push(BRule { cond: r.cond.clone(), sets: r.sets.clone(), fails: r.fails, copies: r.copies.clone(), no_loop: r.no_loop, retracts: r.retracts.clone(), appends: false });
+                            alts.push(BRule { cond: r.cond.clone(), sets: r.sets.clone(), fails: r.fails, copies: r.copies.clone(), no_loop: r.no_loop, retracts: r.retracts.clone(), appends: false, effective_in: None });
                         }
                         if !r.retracts.is_empty() {
-                            alts.push(BRule { cond: r.cond.clone(), sets: r.sets.clone(), fails: r.fails, copies: r.copies.clone(), no_loop: r.no_loop, retracts: vec![], appends: r.appends });
+                            alts.push(BRule { cond: r.cond.clone(), sets: r.sets.clone(), fails: r.fails, copies: r.copies.clone(), no_loop: r.no_loop, retracts: vec![], appends: r.appends, effective_in: None });
                         }
                         if !r.copies.is_empty() {
-                            alts.push(BRule { cond: r.cond.clone(), sets: r.sets.clone(), fails: r.fails, copies: vec![], no_loop: r.no_loop, retracts: r.retracts.clone(), appends: r.appends });
+                            alts.push(BRule { cond: r.cond.clone(), sets: r.sets.clone(), fails: r.fails, copies: vec![], no_loop: r.no_loop, retracts: r.retracts.clone(), appends: r.appends, effective_in: None });
                         }
                     }
                     if r.sets.len() > 1 {
                         for k in 0..r.sets.len() {
                             let mut s = r.sets.clone();
                             s.remove(k);
-                            alts.push(BRule { cond: r.cond.clone(), sets: s, fails: r.fails, copies: r.copies.clone(), no_loop: r.no_loop, retracts: r.retracts.clone(), appends: r.appends });
+                            alts.push(BRule { cond: r.cond.clone(), sets: s, fails: r.fails, copies: r.copies.clone(), no_loop: r.no_loop, retracts: r.retracts.clone(), appends: r.appends, effective_in: None });
                         }
                     }
                     for b in alts {
